@@ -9,6 +9,7 @@ require (
 	github.com/decred/dcrd/dcrec/secp256k1/v4 v4.3.0
 	github.com/elnosh/gonuts v0.0.0
 	github.com/fxamacker/cbor/v2 v2.7.0
+	github.com/gorilla/websocket v1.5.3
 	github.com/lightningnetwork/lnd v0.18.2-beta
 	github.com/nbd-wtf/ln-decodepay v1.12.1
 	pgregory.net/rapid v1.3.0
@@ -47,7 +48,6 @@ require (
 	github.com/golang/protobuf v1.5.4 // indirect
 	github.com/google/shlex v0.0.0-20191202100458-e7afc7fbc510 // indirect
 	github.com/gorilla/mux v1.8.0 // indirect
-	github.com/gorilla/websocket v1.5.3 // indirect
 	github.com/grpc-ecosystem/grpc-gateway/v2 v2.16.0 // indirect
 	github.com/hashicorp/errwrap v1.1.0 // indirect
 	github.com/hashicorp/go-multierror v1.1.1 // indirect
